@@ -129,6 +129,31 @@ PROPS = {
                         "two textual copies of the format rule (Define/Write) which the model represents by one function - their agreement "
                         "in the code is checked by the campaign, not proved.",
              technique="Lean 4 proof (encode/decode round trip by induction) + differential correspondence with expectation oracle"),
+    "C09": P("Pw.Props.C09",
+             ["Pw.Props.C09.C09_null_iff", "Pw.Props.C09.C09_null_wire", "Pw.Props.C09.encodeRow_length",
+              "Pw.Props.C09.encodeRow_fields", "Pw.Props.C09.C09_row_message", "Pw.Props.C09.C09_int_binary",
+              "Pw.Props.C09.C09_int_text", "Pw.Props.C09.C09_text", "Pw.Props.C09.C09_bytea_binary",
+              "Pw.Props.C09.C09_bool_binary", "Pw.Props.C09.C09_uuid_binary", "Pw.parseIntText_decInt"],
+             [("values", 3000, 150000), ("simple", 800, 30000), ("bind", 500, 20000)], ["Writer", "Consts"],
+             design_ref="§7 C09",
+             level_text="Lean theorems about the model of DataWriter.Row and the codecs it uses, for EVERY row: a successful Row writes "
+                        "exactly one DataRow with one field per declared column, field k being the encoding of value k for column k's "
+                        "type in the format the portal's result codes assign to column k; any other outcome writes nothing "
+                        "(C09_row_message, encodeRow_length/_fields); for every supported type and both formats the encoder yields "
+                        "NULL (length -1, no payload) exactly for the three NULL forms and a value (length 0 for empty) otherwise "
+                        "(C09_null_iff, C09_null_wire); integers of every width round-trip over their whole range in binary and in "
+                        "decimal text (C09_int_binary, C09_int_text via parseIntText_decInt: ParseInt inverts FormatInt, strong "
+                        "induction on digits), text/varchar in both formats, bytea/bool/uuid in binary. Framing of the DataRow itself "
+                        "is C02_roundtrip. Tie: 'values' differential campaign over all ten supported types, simple and extended "
+                        "protocol, result formats none/one/per-column, boundary values, 64 KiB-crossing strings, NULL forms in every "
+                        "position; oracle = an independent client-side decoder (Spec/Values.lean: PostgreSQL text formats for bool, "
+                        "bytea, uuid; binary layouts) applied to the implementation's real output and compared with the values the "
+                        "handler was told to write.",
+             level_note="Trusted: Lean kernel. The pgx codecs are library code: the Lean codec model (Model/Codec.lean) is tied to them "
+                        "only by the campaign. float4/float8 are covered in binary format (bit patterns incl. NaN, infinities, -0, "
+                        "denormals); float TEXT format is outside the Lean model and not generated. bool/bytea/uuid text round trips "
+                        "are checked by the campaign's decoder, not proved.",
+             technique="Lean 4 proof (codec round trips, row/column correspondence) + differential correspondence with client-side decoding oracle"),
     "C05": P("Pw.Props.C05",
              ["Pw.Props.C05.runProg_facts", "Pw.Props.C05.C05_rows_delivered", "Pw.Props.C05.C05_written",
               "Pw.Props.C05.C05_after_completion_silent", "Pw.Props.C05.C05_one_complete", "Pw.Props.C05.C05_handler_no_ready",
